@@ -63,10 +63,12 @@ pub fn run(ctx: &mut Ctx) {
             cases.push((format!("twin#{i}"), l));
         }
     }
-    ctx.ev.rule = "generated ledgers over 1–4 securities interleaved on shared dates, plus 'twin' ledgers (one contention skeleton of dates replicated for 2–3 securities with different quantities): report(all) must equal the combination of the reports of each security's lines alone (disposals, legs, holdings; year totals adding up), legs exactly unless a (date, security) has ≥ 2 SELL lines (then per rule and acquisition date — D17); ticker case: the ledger with randomly re-cased tickers parsed from DSL and from JSON must give the same transactions. Non-trivial = accepted ledger with ≥ 2 securities sharing a date; distinct by ledger text.".into();
+    ctx.ev.rule = "generated ledgers over 1–4 securities interleaved on shared dates, plus 'twin' ledgers (one contention skeleton of dates replicated for 2–3 securities with different quantities): report(all) must equal the combination of the reports of each security's lines alone (disposals, legs, holdings; year totals adding up), legs exactly unless a (date, security) has ≥ 2 SELL lines (then per rule and acquisition date — D17); ticker case: the ledger with randomly re-cased tickers parsed from DSL and from JSON must give the same transactions, and (JSON) so must a security renamed to a name with accented, Greek or Cyrillic letters in mixed case. Non-trivial = accepted ledger with ≥ 2 securities sharing a date; distinct by ledger text.".into();
     let ex = run_impl::wide_exemptions();
     let mut r = crate::rng::Rng::new(ctx.seed ^ 0xC09);
+    let mut cli_left: u32 = if ctx.tier == Tier::Quick { 8 } else { 80 };
     for (name, l) in cases {
+        if cli_left > 0 && well_formed(&l) && l.len() >= 3 { cli_left -= 1; cli_crosscheck(ctx, prop, &l, None); }
         ctx.ev.evaluations += 1;
         let whole = run_impl::impl_calc(&l, None, &ex);
         let msd = multi_sell_day(&l);
@@ -155,6 +157,33 @@ pub fn run(ctx: &mut Ctx) {
                 },
                 (Err(_), Err(_)) => {}
                 (a, b) => ctx.ev.violation("oracle", format!("JSON input accepted with one ticker casing and rejected with another ({:?} vs {:?})", a.is_ok(), b.is_ok()), format!("# property C09\n{}", js)),
+            }
+        }
+        // ticker case beyond ASCII (JSON input only: the DSL's tickers are ASCII): one security renamed to a
+        // name with accented / Greek / Cyrillic letters, spelled in a random mix of cases on each line
+        if r.chance(1, 4) && !l.is_empty() {
+            let names = ["MÜLLER", "ÉLAN", "ŠKODA", "ΑΒΓ", "ЯНДЕКС", "ÅÄÖ1"];
+            let upper = *r.pick(&names);
+            let victim = l[r.below(l.len() as u64) as usize].ticker.clone();
+            let base_txs = ledger::to_txs(&l);
+            let mut canon = serde_json::to_value(&base_txs).expect("json");
+            let mut mixed = canon.clone();
+            if let (Some(a), Some(b)) = (canon.as_array_mut(), mixed.as_array_mut()) {
+                for ((x, y), t) in a.iter_mut().zip(b.iter_mut()).zip(&l) {
+                    if t.ticker == victim {
+                        x["ticker"] = json!(upper);
+                        let v: String = upper.chars().map(|c| if r.chance(1, 2) { c.to_lowercase().next().unwrap_or(c) } else { c }).collect();
+                        y["ticker"] = json!(v);
+                    }
+                }
+            }
+            ctx.ev.count("ticker-case-variants:non-ascii");
+            match (serde_json::from_value::<Vec<cgt_core::Transaction>>(canon), serde_json::from_value::<Vec<cgt_core::Transaction>>(mixed.clone())) {
+                (Ok(a), Ok(b)) => if a != b {
+                    ctx.ev.violation("oracle", "re-casing a ticker with non-ASCII letters in JSON input changes the transactions (two securities instead of one)".into(), format!("# property C09\n# oracle: ticker case (JSON, non-ASCII letters)\n{}", mixed));
+                },
+                (Err(_), Err(_)) => {}
+                (a, b) => ctx.ev.violation("oracle", format!("JSON input accepted with one ticker casing and rejected with another ({:?} vs {:?})", a.is_ok(), b.is_ok()), format!("# property C09\n{}", mixed)),
             }
         }
         // correspondence: the model on the whole ledger (its per-security factoring is by construction)
